@@ -183,7 +183,7 @@ def run(run):
             versions = [(13, locs[0])] + versions
         from pybufrkit.descriptors import flat_member_ids
         nseq = nel = 0
-        spec_keys, groups = {}, {}
+        spec_keys, groups, spec_flat = {}, {}, {}
         for mv, loc in versions:
             g = table_group(mv, loc)
             groups[(mv, loc)] = g
@@ -199,6 +199,8 @@ def run(run):
                     spec_keys.setdefault((mv, loc), set()).add(rec['seq'] if what == 'tabled' else rec['id'])
                     if what == 'tabled':
                         nseq += 1
+                        if rec['defined']:
+                            spec_flat.setdefault(rec['seq'], {})[(mv, loc)] = rec['flat']
                         d = g.lookup(rec['seq'])
                         try:
                             got = flat_member_ids(d)
@@ -234,6 +236,40 @@ def run(run):
                     break
         run.traces += nprobe
         run.notes['definedness_probes'] = nprobe
+        # the same expansions in a process that has read table-definition messages from a stream first (the prepbufr sample): the
+        # standard sequences, which those definitions do not mention, still expand as the files of the SELECTED version say; the
+        # sequences whose expansion differs between the compared selections are asked for under each of them in turn
+        differing = sorted(k for k, v in spec_flat.items() if len(v) > 1 and len({tuple(x) for x in v.values()}) > 1)
+        same = sorted(k for k, v in spec_flat.items() if len(v) > 1 and len({tuple(x) for x in v.values()}) == 1)
+        pick = differing[seed() % 3::3][:40 if not thorough else 400] + same[seed() % 7::7][:10]
+        queries = [{'mv': mv, 'local': list(loc) if loc else None, 'id': k} for k in pick for (mv, loc) in sorted(spec_flat[k], key=lambda x: (x[0], x[1] or ()))]
+        queries += queries[::-1][:len(queries) // 2]
+        if queries:
+            import subprocess
+            from ..common import PY, VERIF
+            with open(os.path.join(REPO, 'tests', 'data', 'prepbufr.bufr'), 'rb') as f:
+                defs = list(f.read())
+            jf, of = os.path.join(wd, 'c14w.job.json'), os.path.join(wd, 'c14w.out.json')
+            with open(jf, 'w') as f:
+                json.dump({'definitions': defs, 'root': TROOT, 'queries': queries, 'stop_after': 3}, f)
+            env = dict(os.environ, PYTHONPATH=REPO + os.pathsep + VERIF)
+            p = subprocess.run([PY, '-m', 'vf.c14worker', jf, of], cwd=VERIF, env=env, stdout=subprocess.PIPE, stderr=subprocess.PIPE, timeout=900)
+            if p.returncode != 0 or not os.path.exists(of):
+                raise MachineryError('c14worker failed: %s' % p.stderr.decode()[-400:])
+            with open(of) as f:
+                got = json.load(f)
+            for q, g_ in zip(queries, got):
+                run.traces += 1
+                want = spec_flat[q['id']][(q['mv'], tuple(q['local']) if q['local'] else None)]
+                if g_ != want:
+                    run.violation(('tabled', 'expansion', 'after-definitions', 'v%d' % q['mv']),
+                                  'after table-definition messages were read in the process: sequence %06d under version %d expands to %r, its table file says %r' % (
+                                      q['id'], q['mv'], g_ if isinstance(g_, str) else g_[:20], want[:20]),
+                                  {'kind': 'seq-after-definitions', 'query': q, 'order': [[x['mv'], x['id']] for x in queries[:30]]})
+                    break
+                run.nontriv(('after-defs', q['mv'], str(q['local']), q['id']))
+            run.notes['expansions_after_in_stream_definitions'] = len(queries)
+            run.notes['sequences_whose_expansion_differs_between_selections'] = len(differing)
         run.notes['table_d_sequences_compared'] = nseq
         run.notes['table_b_elements_compared'] = nel
         # ---------------- version selection
